@@ -6,13 +6,15 @@ cd "$(dirname "$0")"
 export CARGO_NET_OFFLINE=true
 mkdir -p work evidence replays
 [ -f harness/Cargo.lock ] || cp /repo/Cargo.lock harness/Cargo.lock
-(cd harness && RUSTFLAGS="-Awarnings" cargo build --offline --quiet && RUSTFLAGS="-Awarnings" cargo build --offline --quiet --release)
+# only the binaries of integrated checks (others may be work in progress)
+BINS="--bin storedrv --bin crashdrv"
+(cd harness && RUSTFLAGS="-Awarnings" cargo build --offline --quiet $BINS && RUSTFLAGS="-Awarnings" cargo build --offline --quiet --release $BINS)
 python3 - <<'PY'
 import sys, os
 sys.path.insert(0, "lib")
 import storelib as S
 import concurrent.futures as cf
 with cf.ThreadPoolExecutor(max_workers=5) as ex:
-    list(ex.map(S.gen_edges, ["core", "c09", "c10", "c11", "c18"]))
+    list(ex.map(S.gen_edges, ["core", "c09", "c10", "c11", "c18", "q"]))
 PY
 echo setup done
